@@ -4,8 +4,11 @@ CONSTANTS
   Atoms <- Atoms4
   MaxLevel = 2
   Scale = 1
+  PropGuardBug = FALSE
   SavePredBug = FALSE
 INVARIANT DistExact
+INVARIANT PropagationComplete
+INVARIANT LemmasValid
 INVARIANT ConflictIffNegCycle
 INVARIANT PopRestoresDists
 INVARIANT PopRestoresConstrs
